@@ -231,7 +231,11 @@ def _mk_reduction(name):
             kw["keepdims"] = kd == 2
         if name in ("var", "std") and c.bool():
             kw["ddof"] = 1
-        form = c.int(0, 4)  # 0 function+kwargs, 1 method, 2 positional axis, 3 positional axis and dtype (NumPy's order), 4 dtype keyword
+        form = c.int(0, 5)  # 0 function+kwargs, 1 method, 2 positional axis, 3 positional axis and dtype (NumPy's order), 4 dtype keyword, 5 initial=
+        if form == 5:
+            if name in ("sum", "prod", "max", "min", "amax", "amin"):
+                kw["initial"] = 0.7 if name in ("sum", "prod") else (-9.0 if name in ("max", "amax") else 9.0)
+            form = 0
         has_method = name in ("sum", "mean", "prod", "var", "std", "max", "min")
         has_dtype = name in ("sum", "mean", "prod", "var", "std")
         if form == 1 and not has_method:
